@@ -83,7 +83,7 @@ func checkC08(e *Env) {
 	for _, v := range []string{"1b2", "1b3"} {
 		cfg := sxgVersion(v)
 		steps := []step{
-			{"64x0x20", gate.CallInstr("64x0x20", "(*bytes.Buffer).WriteByte", "local:buf", "const:32").WithInstrIn(notCertBlock)},
+			{"64x0x20", prefixStep()},
 			{"context", gate.CallInstr("context", "(*bytes.Buffer).WriteString", "local:buf", "call:signedexchange.contextString(param:e.Version)")},
 			{"separator-0", gate.CallInstr("separator-0", "(*bytes.Buffer).WriteByte", "local:buf", "const:0")},
 			w("validity-url.len", be8("conv(len(conv(param:validityUrl)))")),
@@ -104,8 +104,8 @@ func checkC08(e *Env) {
 			gate.CallInstr("msg.cert.32", "(*bytes.Buffer).WriteByte", "local:buf", "const:32").WithInstrIn(func(in ssa.Instruction) bool { return !notCertBlock(in) }),
 			gate.CallInstr("msg.cert.value", "(*bytes.Buffer).Write", "local:buf", "param:certSha256"))
 		e.sequenceOrder("ORDER", ssm, set, "cert-sha256", []step{steps[1], w("cert-sha256", "param:certSha256"), steps[3]})
-		zeroWrites(e, ssm, unset, 2) // separator + "not set" byte
-		zeroWrites(e, ssm, set, 1)   // separator only
+		zeroWrites(e, ssm, unset, 2)   // separator + "not set" byte
+		zeroWrites(e, ssm, set, 1)     // separator only
 		for _, st := range steps[1:] { // the prefix loop has its own obligation (prefixLoop)
 			e.requireGates("GATE", ssm, out, cfg, st.g)
 		}
@@ -117,7 +117,7 @@ func checkC08(e *Env) {
 		e.tableEqual("signed-message-b1:keys", e.P.Pos(ssm.Pos()), keys, []string{`"cert-sha256"`, `"date"`, `"expires"`, `"headers"`, `"validity-url"`}, "keys of the b1 signed-message map", "specification")
 		cfg := sxgVersion("1b1")
 		e.sequenceOrder("ORDER", ssm, cfg, "signed-message", []step{
-			{"64x0x20", gate.CallInstr("64x0x20", "(*bytes.Buffer).WriteByte", "local:buf", "const:32").WithInstrIn(notCertBlock)},
+			{"64x0x20", prefixStep()},
 			{"context", gate.CallInstr("context", "(*bytes.Buffer).WriteString", "local:buf", "call:signedexchange.contextString(param:e.Version)")},
 			{"separator-0", gate.CallInstr("separator-0", "(*bytes.Buffer).WriteByte", "local:buf", "const:0")},
 			{"map", gate.CallInstr("map", "(*cbor.Encoder).EncodeMap", "call:cbor.NewEncoder(local:buf)", "*")},
@@ -297,6 +297,31 @@ func prefixLoop(e *Env, fn *ssa.Function, cfg gcfg) {
 			return
 		}
 	}
+	// equivalent idioms: buf.Write(bytes.Repeat([]byte{0x20}, 64)) / buf.WriteString(strings.Repeat(" ", 64))
+	for _, b := range ctx.ReachableBlocks(fn) {
+		for _, in := range b.Instrs {
+			cc, ok := in.(*ssa.Call)
+			if !ok || len(cc.Call.Args) != 2 || prov.Of(cc.Call.Args[0]) != "local:buf" {
+				continue
+			}
+			rep, ok := cc.Call.Args[1].(*ssa.Call)
+			if !ok || len(rep.Call.Args) != 2 || prov.Of(rep.Call.Args[1]) != "const:64" {
+				continue
+			}
+			okRep := false
+			switch prov.CalleeName(&cc.Call) + "<-" + prov.CalleeName(&rep.Call) {
+			case "(*bytes.Buffer).Write<-bytes.Repeat":
+				okRep = flagOf(rep) == "32" && strings.Contains(prov.Of(rep.Call.Args[0]), "alloc:[1]byte")
+			case "(*bytes.Buffer).WriteString<-strings.Repeat":
+				okRep = prov.Of(rep.Call.Args[0]) == `const:" "`
+			}
+			if okRep {
+				x := e.R.OK("TABLE", key, e.P.InstrPos(in), "64 bytes 0x20 written with Repeat")
+				x.Config = cfg.name
+				return
+			}
+		}
+	}
 	x := e.R.Fail("TABLE", key, e.P.Pos(fn.Pos()), "the message does not start with a loop writing exactly 64 bytes 0x20")
 	x.Config = cfg.name
 }
@@ -335,4 +360,13 @@ func notCertBlock(in ssa.Instruction) bool {
 		}
 	}
 	return true
+}
+
+// prefixStep: the emission step that writes the 64-space prefix, in the loop
+// form or with Repeat.
+func prefixStep() gate.Gate {
+	return either("64x0x20", "64 bytes 0x20",
+		gate.CallInstr("", "(*bytes.Buffer).WriteByte", "local:buf", "const:32").WithInstrIn(notCertBlock),
+		gate.CallInstr("", "(*bytes.Buffer).Write", "local:buf", "call:bytes.Repeat(*,const:64)"),
+		gate.CallInstr("", "(*bytes.Buffer).WriteString", "local:buf", `call:strings.Repeat(const:" ",const:64)`))
 }
